@@ -101,16 +101,12 @@ def run(chk, repo):
     # ---------------------------------------------------------------- P2 (a) / P4 header transformers
     header_sentinels(chk, repo, L)
     # ---------------------------------------------------------------- P3
-    for cls in ("AsciiInteger", "AsciiFloat", "PaddedString", "StripNullBytes"):
+    for cls in ("AsciiInteger", "AsciiFloat", "PaddedString", "StripNullBytes", "AsciiComplex"):
         check_adapter(chk, "C20-P3v", repo, L.ev, (DATATYPES, cls), blank_rule="C20-P3")
     chk.rules.pop("C20-P3v", None)
-    chk.obligations[:] = [o for o in chk.obligations if o["rule"] != "C20-P3v" or not o["holds"]]
-    for o in chk.obligations:
-        if o["rule"] == "C20-P3v":
-            o["rule"] = "C20-P3"
-    for v_ in chk.violations:
-        if v_["rule"] == "C20-P3v":
-            v_["rule"] = "C20-P3"
+    chk.obligations[:] = [o for o in chk.obligations if o["rule"] != "C20-P3v"]
+    # value semantics of filled fields belong to C03/C04, not to this property
+    chk.violations[:] = [v_ for v_ in chk.violations if v_["rule"] != "C20-P3v"]
 
 
 def p1_predicate(chk, repo, L):
